@@ -259,6 +259,39 @@ def jobs_C15(tier):
     return j
 
 
+def hjob(prop, prec, pat, mem, depth, grid='quick', slices=1, variant='q', extra=()):
+    return [{'engine': 'mchist/mchist.c', 'variant': variant, 'prec': prec,
+             'args': ['--prop', prop, '--pat', str(pat), '--mem', str(mem), '--depth', str(depth), '--grid', grid, '--slice', '%d/%d' % (i, slices)] + list(extra)} for i in range(slices)]
+
+
+def jobs_hist(prop, tier):
+    j = []
+    q = tier == 'quick'
+    for p in 'sdcz':
+        for pat in (0, 1, 2):
+            for mem in (0, 1):
+                if q:
+                    j += hjob(prop, p, pat, mem, 4 if p == 'd' else 3, slices=4 if p == 'd' else 1)
+                else:
+                    j += hjob(prop, p, pat, mem, 5 if p == 'd' else 4, grid='full' if p == 'd' else 'quick', slices=16 if p == 'd' else 4)
+    if prop == 'C08':
+        for pat in (0, 1):
+            j += hjob(prop, 'd', pat, 0, 3, extra=['--u', '0.1']); j += hjob(prop, 'd', pat, 1, 3, variant='qv')
+    if prop == 'C17':
+        for p in 'sdcz':
+            for n in (1, 2, 3):
+                for vk, salt in ((0, 0), (4, 1)):
+                    j += seq('C17', 'q', p, n, 'quick', vkind=vk, extra=['--salt', str(salt)], slices=4)
+        if not q:
+            j += seq('C17', 'q', 'd', 4, 'quick', vkind=0)
+    return j
+
+
+RULE_H = ('exhaustive enumeration of call HISTORIES: every valid word up to the stated depth over the alphabet {F(values,threads): first factorization; R(values,usepr,threads): refactorization that reuses '
+          'ordering, etree and L/U storage; S(trans): solve with the existing factors and a fresh right-hand side; D: destroy} on 3 fixed patterns (4x4 unsymmetric, 5x5 cyclic band, 4x4 dense), 3-4 value sets '
+          '(diagonal pivots / other pivots / old pivot fails the threshold half-way / rescaled), internal and user-supplied workspace; the state of a history is the history itself replayed on fresh objects '
+          '(never merged on observable state); distinct_nontrivial counts distinct (history, bits of L/U/permutations/solutions) outcomes')
+
 RULE_X = ('exhaustive enumeration: every structurally nonsingular 0/1 pattern of the stated size with generic values x 6 scalings (none, rows, columns, both by powers of two, '
           'uniformly huge, uniformly tiny: they force every equed outcome) x trans {N,T,C} x storage {NC,NR} x fact {DOFACT, EQUILIBRATE, FACTORED after DOFACT, FACTORED after EQUILIBRATE} '
           'x nrhs x leading dimensions (tight and padded, ldb != ldx) x thresholds x threads, plus a graded family n=4..6 with prescribed singular values (one decade apart up to 1e13 / 1e4); '
@@ -326,6 +359,16 @@ SPECS = {
                             'judged only for the preconditions the statement lists: violations of the TYPE of the factors L/U and of the row count of B/X are executed but not judged (ignore_sigs)'],
             'ignore_sigs': [r'^C15:[a-z]+:[a-z-]+:[LU]-(stype|dtype|mtype)$', r'^C15:crash:[a-z]+:[LU]-(stype|dtype|mtype)$', r'^C15:[a-z]+:[a-z-]+(:[a-z]+)?:[BX]-nrow$'],
             'deadline': {'quick': 300, 'thorough': 1800}},
+    'C08': {'jobs': lambda t: jobs_hist('C08', t), 'level': 'exploration', 'rule': RULE_H + '; after every F/R: wellformed(), LU residual and multiplier bound for the CURRENT values, pivot policy incl. reuse of the previous row order; after every S: solve residual, factors/permutations/A bitwise unchanged; every history is replayed twice and must give identical bits',
+            'assumptions': ['threads run inline in this engine (thread counts vary between calls, schedules are Engine S business)', 'complex trans=CONJ solves are not judged here (known finding of C07)'],
+            'deadline': {'quick': 600, 'thorough': 3 * 3600}},
+    'C17': {'jobs': lambda t: jobs_hist('C17', t), 'level': 'exploration', 'rule': RULE_H + '; allocator model (every malloc/calloc/free of the library is renamed at compile time): the set of live blocks after R and S equals that after the first F, and after the documented clean-up equals the pre-history set; plus every driver call of the C01/C06 enumeration (n<=3: success, singular, workspace query) judged for blocks left after destroying what was returned',
+            'assumptions': ['documented clean-up: Destroy_SuperNode_SCP/Destroy_CompCol_NCP (system memory) or Destroy_SuperMatrix_Store + free(work) (user workspace), SUPERLU_FREE of the three ordering arrays, StatFree, Destroy_CompCol_Permuted',
+                            'leaks on illegal-argument returns are judged in C15 (oracle leak); leaks on allocation-failure returns in C14', 'thread and file handles: every created thread is joined (C04 monitors); the library opens no files'],
+            'deadline': {'quick': 600, 'thorough': 3 * 3600}},
+    'C18': {'jobs': lambda t: jobs_hist('C18', t), 'level': 'exploration', 'rule': RULE_H + '; after every history (and after 1-2 repetitions of 4 extra events: singular call, failed allocation, expert-driver call with other options, another matrix size) a fixed probe (first factorization + 2 solves, 1 thread) is run and its complete output bits are compared with the same probe executed in a freshly forked process',
+            'assumptions': ['one precision per process: carry-over between the s/d/c/z copies of the static state is not exercised (separate translation units with separate statics)'],
+            'deadline': {'quick': 600, 'thorough': 3 * 3600}},
     'C09': {'jobs': jobs_C09, 'level': 'exploration', 'rule': RULE_SEQ,
             'assumptions': ['checker wellformed() implements the statement literally; n <= 12'],
             'deadline': {'quick': 600, 'thorough': 3 * 3600}},
